@@ -2,6 +2,7 @@
 import multiprocessing as mp
 import random
 
+from vf import engine_p
 from vf import execharness as H
 from vf.report import MachineryDefect, Run
 
@@ -116,6 +117,16 @@ def check(tier, seed):
     run.sample({"operation": H.OPERATIONS[3][0], "world": "error@('me', 'pets', 0, 'name')", "contract": "ordered data and error multiset == reference executor"})
     run.trusted("vf/ref_exec.py transcribes section 6 of the specification (with the non-propagating null documented by C04); vf/ref_coerce.py")
     run.assume("no deductive obligation: the executor is continuation-passing code over closures and runtime protocol objects (outside the VC generator's subset)")
-    return run.finish("other", "bounded stand-in: end-to-end functional contract (ordered data + error multiset == reference execution algorithm) over "
+    engine_p.run(run, "C04")
+    # BlockingExecutor has no separate serial strategy: its loop is sequential by construction
+    from py_gql.execution.blocking_executor import BlockingExecutor
+    run.cov["obligations"] += 1
+    run.cov["backends"]["class attribute identity"] = 1
+    if BlockingExecutor.__dict__.get("execute_fields_serially") is BlockingExecutor.__dict__.get("execute_fields"):
+        run.cov["discharged"] += 1
+    else:
+        run.violation("BlockingExecutor:serial-is-the-sequential-loop", "BlockingExecutor.execute_fields_serially is no longer its (sequential) execute_fields", {}, False)
+    return run.finish("other", "trace contracts over every path of the executor's skeleton (complete_value dispatch, _handle_non_nullable_value, execute_fields; Engine P) + "
+                               "bounded stand-in: end-to-end functional contract (ordered data + error multiset == reference execution algorithm) over "
                                "enumerated operations x resolver worlds, and independence from earlier requests on the same schema object",
                       checker_cmd="./check C04 --tier %s" % tier)
